@@ -2,6 +2,7 @@ import XProofs.Clip
 import XProofs.Limits
 import XModel.Opt
 import XModel.OptFix
+import XModel.OptLimits
 /-!
 # C10 — accepted optimizer iterates respect limits, max_step and disabled knobs
 -/
@@ -67,6 +68,32 @@ theorem C10_disabled_knob_never_changed {R : Type} (c : Opt.Cfg R) (its : List (
     s'.knobs k = s.knobs k ∧ s'.vAct k = false ∧
     ∀ i row, s.log.length ≤ i → s'.log[i]? = some row → row.knobs k = s.knobs k ∧ row.vAct k = false :=
   Opt.optStep_disabled_fixed c its tb k s s' r hk htb h
+
+/-- **every accepted knob vector lies within the limits**: on the control skeleton of `Optimize.step` (arbitrary
+    numerics; Jacobian probes are evaluated WITHOUT the limit check and may leave the limits temporarily), starting with
+    every knob inside its limits and `take_best` reloading a row logged during the call: every row the call appends to
+    the log — whatever the outcome, normal return or exception — has every knob inside its limits, the disabled ones
+    holding their start value; on normal return so does the container -/
+theorem C10_rows_within_limits {R : Type} (c : Opt.Cfg R) (its : List (Opt.Iter R)) (tb : Option Nat) (s s' : Opt.St R)
+    (r : Except Opt.Err Unit) (hall : ∀ j, j < c.n → c.inLimits j (s.knobs j) = true)
+    (htb : ∀ i, tb = some i → s.log.length ≤ i) (h : Opt.optStep c its tb s = (r, s')) :
+    (∀ i row, s.log.length ≤ i → s'.log[i]? = some row →
+      ∀ j, j < c.n → c.inLimits j (row.knobs j) = true ∧ (s.vAct j = false → row.knobs j = s.knobs j)) ∧
+    (r = .ok () → ∀ j, j < c.n → c.inLimits j (s'.knobs j) = true) ∧
+    (∀ j, s.vAct j = false → s'.knobs j = s.knobs j) :=
+  Opt.optStep_all_within_limits c its tb s s' r hall htb h
+
+/-- the container claim is for normal return only: after an exception a Jacobian probe's value may be left in the
+    container (concrete runs in `Opt.LimitsExample`); the active-knob form with the weakest start hypothesis -/
+theorem C10_rows_within_limits_active {R : Type} (c : Opt.Cfg R) (its : List (Opt.Iter R)) (tb : Option Nat)
+    (s s' : Opt.St R) (r : Except Opt.Err Unit)
+    (hstart : ∀ j, j < c.n → s.vAct j = true → c.inLimits j (s.knobs j) = true)
+    (htb : ∀ i, tb = some i → s.log.length ≤ i) (h : Opt.optStep c its tb s = (r, s')) :
+    s'.vAct = s.vAct ∧
+    (∀ i row, s.log.length ≤ i → s'.log[i]? = some row →
+      row.vAct = s.vAct ∧ ∀ j, j < c.n → row.vAct j = true → c.inLimits j (row.knobs j) = true) ∧
+    (r = .ok () → ∀ j, j < c.n → s'.vAct j = true → c.inLimits j (s'.knobs j) = true) :=
+  Opt.optStep_rows_within_limits c its tb s s' r hstart htb h
 
 /-- the pinned code's behaviour on the probed witness (max_step = (1, 5), raw step (10, 10)): knob 0 moves by 5 -/
 example : Clip.clipPinned (fun i => if i = 0 then some 1 else some 5) 2 (fun _ => 10) 0 = 5 := by
